@@ -23,18 +23,113 @@ def jobs(ctx, mode):
     return out, k, specs
 
 
+def corpus_worker(chunk, seed, tier):
+    """Corpus file -> every format that accepts the loaded object -> three cycles in that format."""
+    import os
+    import shutil
+    import warnings
+
+    from iodata import dump_one, load_one
+    from mc.core import CORPUS, Part, make_scratch
+
+    part = Part(seed, tier)
+    specs = roundtrip.all_specs()
+    tmp = make_scratch()
+    try:
+        for fn, infmt, name in chunk:
+            spec = specs[name]
+            with warnings.catch_warnings():
+                warnings.simplefilter("ignore")
+                try:
+                    x0 = load_one(str(CORPUS / fn), fmt=infmt)
+                except Exception:  # noqa: BLE001
+                    continue
+            if name == "json_qcschema" and "schema_name" not in x0.extra:
+                continue
+            path = str(tmp / spec.fname)
+            objs, files = [x0], []
+            ok = True
+            for icycle in range(3):
+                if os.path.exists(path):
+                    os.remove(path)
+                with warnings.catch_warnings():
+                    warnings.simplefilter("ignore")
+                    try:
+                        dump_one(objs[-1], path, fmt=spec.fmt, allow_changes=True)
+                    except Exception as exc:  # noqa: BLE001
+                        if icycle > 0:
+                            part.violation("cycle-dump", f"{name}:corpus:cycle{icycle + 1}-dump-fails", {"file": fn, "format": name}, f"{fn} -> {name}: cycle {icycle + 1} dump fails: {exc!r} caused by {exc.__cause__!r}")
+                        ok = False
+                        break
+                    with open(path, "rb") as fh:
+                        files.append(fh.read())
+                    try:
+                        objs.append(load_one(path, fmt=spec.fmt))
+                    except Exception as exc:  # noqa: BLE001
+                        if type(exc).__name__ == "LoadError" and icycle == 0:
+                            part.outcome("corpus-chain", "first-reload-fails(judged by C01/C02)")
+                        else:
+                            part.violation("cycle-reload", f"{name}:corpus:cycle{icycle + 1}-reload-fails", {"file": fn, "format": name}, f"{fn} -> {name}: {exc!r}")
+                        ok = False
+                        break
+            if not ok:
+                continue
+            part.count()
+            part.nontrivial((fn, name))
+            s1, s2, s3 = (roundtrip.snapshot(o) for o in objs[1:4])
+            f2, f3 = files[1], files[2]
+            if hasattr(spec, "cycle_filter"):
+                s1, s2, s3 = (spec.cycle_filter(s) for s in (s1, s2, s3))
+                f2, f3 = spec.file_filter(f2), spec.file_filter(f3)
+            d12, d23 = roundtrip.first_difference(s1, s2), roundtrip.first_difference(s2, s3)
+            ulp = False
+            if d12 or d23:
+                ok12, g12 = roundtrip.numeric_gap(s1, s2)
+                ok23, g23 = roundtrip.numeric_gap(s2, s3)
+                ulp = ok12 and ok23 and max(g12, g23) <= 4e-15
+            info = {"file": fn, "format": name}
+            if ulp:
+                part.violation("object-drift", f"{name}:object-ulp-drift", info, f"{fn} -> {name}: reloaded objects differ in the last bits between cycles: {d12 or d23}")
+                if f2 != f3:
+                    part.violation("file-drift", f"{name}:file-ulp-drift", info, f"{fn} -> {name}: third file differs from second in last printed digits")
+            elif d12 or d23:
+                part.violation("object-drift", f"{name}:corpus:object-drifts", info, f"{fn} -> {name}: {'cycle 2 vs 1' if d12 else 'cycle 3 vs 2'}: {d12 or d23}")
+            elif f2 != f3:
+                part.violation("file-drift", f"{name}:corpus:file-drifts", info, f"{fn} -> {name}: third file differs from second")
+            else:
+                part.outcome("corpus-chain", "fixpoint-after-one-cycle")
+            if len(part.samples) < 1:
+                part.sample(info)
+    finally:
+        shutil.rmtree(tmp, ignore_errors=True)
+    return part.result()
+
+
 def run(ctx):
+    import os
+
+    from mc.core import CORPUS
     from mc.pool import pmap
+    from props import c07
 
     js, k, specs = jobs(ctx, "c15")
     pmap(ctx, roundtrip.worker, js, chunk=8)
     roundtrip.minimise_and_merge(ctx, "c15")
+    chains = []
+    for origin, fn, infmt, text in c07.corpus_files():
+        if len(text) > (20_000 if not ctx.thorough else 2_000_000):
+            continue
+        for name in specs:
+            chains.append((fn, infmt, name))
+    pmap(ctx, corpus_worker, chains, chunk=8)
+    ctx.cov["corpus_chains"] = len(chains)
     ctx.cov.update(formats=sorted(specs), dbe_k=k, cases=len(js), axes={n: [a for a, _ in s.space] for n, s in specs.items()})
     ctx.exhaustive = True
     ctx.rule = (
         f"per format, deviation-bounded enumeration k<={k} over the format's axes (atom counts crossing every field width, element sets, coordinate ranges, titles, bonds, "
         "optional attributes, grid shapes/values, matrix sizes); each case: build object, dump_one, load_one, compare every attribute the format stores (exact / digits-aware); "
-        "violations are minimised to their smallest deviation set. Distinct = (format, deviation set)."
+        "violations are minimised to their smallest deviation set. Additionally every corpus file (<= 20 kB quick, all thorough) is converted to every format that accepts it and cycled three times. "
+        "Distinct = (format, deviation set) / (corpus file, format)."
     )
     ctx.assumptions += ["tolerances are 0.6 unit in the last digit the format prints (typed per format in props/fmtspecs.py)", "multi-line titles are outside the stated domain"]
 
